@@ -1,7 +1,7 @@
 """Def-use origins: print where a value comes from as an expression over parameters,
 call results and constants, looking through moves, copies, reborrows, `?`, deref/clone/into."""
 import re
-from .facts import callee_path, callee_name, _strip_generics
+from .facts import callee_path, callee_name, _strip_generics, short_path
 
 TRANSPARENT = re.compile(
     r'(::deref$|::deref_mut$|::clone$|::into$|::from$|::as_ref$|::as_mut$|::borrow$|::borrow_mut$|::as_slice$|'
@@ -67,7 +67,7 @@ class Origins:
         if k == 'const':
             v = o['v']
             if 'fn' in v:
-                return 'fn:' + '::'.join(_strip_generics(v['fn']).split('::')[-2:])
+                return 'fn:' + short_path(v['fn'])
             if v.get('v') not in (None, ''):
                 return 'const ' + v['v']
             return 'const ' + v['c'].replace('const ', '')
@@ -91,7 +91,7 @@ class Origins:
                 if what.startswith('adt:'):
                     segs = _strip_generics(what[4:]).split('::')
                     name = '::'.join(segs[-2:])
-                    if depth <= 3:
+                    if depth <= 5:
                         names = rv.get('names') or []
                         parts = []
                         for j, o in enumerate(rv['ops'][:8]):
